@@ -212,3 +212,51 @@ def three_namespace_chain_models():
                    top: Namespace(top, (File(None, (mid,), tuple(sorted(top_defs, key=mm_def_key))),))}
             out.append((Model((nss['na'], nss['nb'], nss['nc'])), ('three-namespace-alias-chain', variant, 'low=%s mid=%s top=%s' % (low, mid, top))))
     return out
+
+
+def import_reason_models():
+    """Why a namespace is imported: the complete product.  `nx` offers a struct, a union, an alias, an annotation type with an
+    annotation of that type, and an annotation whose type lives in a fourth namespace `ny`; `nb` aliases nx's struct.  `nc`
+    imports nx and uses it for EVERY subset of the reasons {data type, alias, annotation of an nx type, annotation of a foreign
+    type, annotation type, documentation reference} - the empty subset is an unused import - each with and without additionally
+    reaching nx's struct through nb's alias (with nx imported, and in the 'via' variants also without importing nx at all)."""
+    import itertools
+    from .model import (Model, Namespace, File, Alias, AnnType, Annotation, AnnRef, R, N, L, P, VOID, mkfield, mktag, mkstruct, mkunion, mkroute)
+    I32, STR = P('Int32', ()), P('String', ())
+    ny = Namespace('ny', (File(None, (), (AnnType('Ftype', (mkfield('q', I32),), None),)),))
+    nx_defs = (Alias('Aitem', R(None, 'Item'), None, ()), AnnType('Imp', (mkfield('p', I32),), None), Annotation('Far', 'Ftype', 'ny', (), (('q', 1),)),
+               Annotation('High', 'Imp', None, (), (('p', 1),)), mkstruct('Item', fields=[mkfield('x', I32)]), mkunion('Kind', tags=[mktag('ka'), mktag('kb', I32)]))
+    nx = Namespace('nx', (File(None, ('ny',), tuple(sorted(nx_defs, key=mm_def_key))),))
+    nb = Namespace('nb', (File(None, ('nx',), (Alias('ItemRef', R('nx', 'Item'), None, ()), Alias('KindRef', R('nx', 'Kind'), None, ()))),))
+    reasons = ['D', 'A', 'N', 'F', 'T', 'R']
+    out = []
+    for k in range(len(reasons) + 1):
+        for sub in itertools.combinations(reasons, k):
+            for via in (False, True):
+                for import_nx in ((True, False) if (via and not sub) else (True,)):
+                    fields = [mkfield('plain', I32)]
+                    defs = []
+                    if 'D' in sub:
+                        fields.append(mkfield('d', R('nx', 'Item')))
+                    if 'A' in sub:
+                        fields.append(mkfield('a', N(R('nx', 'Aitem'))))
+                    if 'N' in sub:
+                        fields.append(mkfield('n', I32, anns=(AnnRef('nx', 'High'),)))
+                    if 'F' in sub:
+                        fields.append(mkfield('f', STR, anns=(AnnRef('nx', 'Far'),)))
+                    if 'T' in sub:
+                        defs.append(Annotation('Loc', 'Imp', 'nx', (), (('p', 2),)))
+                        fields.append(mkfield('t', I32, anns=(AnnRef(None, 'Loc'),)))
+                    if via:
+                        fields.append(mkfield('v', R('nb', 'ItemRef')))
+                        fields.append(mkfield('vk', L(R('nb', 'KindRef'), None, None)))
+                    doc = 'Uses :type:`nx.Item` in words only.' if 'R' in sub else None
+                    defs += [mkstruct('User', fields=fields, doc=doc), mkroute('ru', 1, R(None, 'User'), VOID, VOID)]
+                    if via:
+                        defs.append(mkunion('UserU', tags=[mktag('uv'), mktag('ur', R('nb', 'ItemRef'))]))
+                        # a route whose signature names only aliases of a namespace that declares nothing but aliases
+                        defs.append(mkroute('rv', 1, R('nb', 'ItemRef'), R('nb', 'KindRef'), N(R('nb', 'ItemRef'))))
+                    imports = (('nb',) if via else ()) + (('nx',) if import_nx else ())
+                    nc = Namespace('nc', (File(None, tuple(sorted(imports)), tuple(sorted(defs, key=mm_def_key))),))
+                    out.append((Model((nb, nc, nx, ny)), ('import-reasons', '+'.join(sub) or 'unused', 'via-alias' if via else 'direct', 'nx-imported' if import_nx else 'nx-not-imported')))
+    return out
